@@ -42,7 +42,11 @@ Base == [arr |-> [arr |-> <<<<I(1), I(2), I(3)>>, <<I(4), I(5), I(6)>>>>, dims |
          \* second name field: one expression can then look up dimensions of two different arrays by run-time names
          tr |-> [arr |-> <<<<I(1), I(2), I(3), I(4), I(5)>>, <<I(6), I(7), I(8), I(9), I(10)>>,
                             <<I(11), I(12), I(13), I(14), I(15)>>, <<I(16), I(17), I(18), I(19), I(20)>>>>, dims |-> <<"y", "x">>],
-         nx |-> S("x")]
+         nx |-> S("x"),
+         \* one generic record with a computed field, instantiated with an integer and with a floating-point type: the type of
+         \* `ga.val` / `gb.val` is that of the instantiation accessed, whichever was resolved first
+         ga |-> [rec |-> [x |-> I(11), val |-> I(11), again |-> I(11)]],
+         gb |-> [rec |-> [x |-> H(5), val |-> H(5), again |-> H(5)]]]
 
 \* ---- expression trees
 Fld(n) == [k |-> "fld", n |-> n]
@@ -161,7 +165,11 @@ TwoArrays ==
          Bin("+", SizeDim(Tr, Str("x")), SizeDim(Arr, Fld("ns"))), Bin("+", SizeDim(Arr, Fld("ns")), Bin("+", SizeDim(Tr, Fld("ns")), SizeDim(Arr, Fld("nx")))),
          Idx(Tr, <<Arg("", DimIndex(Arr, Fld("ns"))), Arg("", DimIndex(Tr, Fld("nx")))>>), SizeDim(Tr, Fld("nx")), DimIndex(Tr, Fld("ns")), Size(Tr) }
 
-Exprs == Plain \cup Fixed \cup Switches \cup TwoArrays
+Generics == { Mem(Fld(g), m) : g \in {"ga", "gb"}, m \in {"x", "val", "again"} }
+            \cup { Bin("+", Mem(Fld("gb"), "val"), Mem(Fld("ga"), "val")), Bin("+", Mem(Fld("ga"), "val"), Lit(1)), Bin("*", Mem(Fld("gb"), "again"), Lit(2)),
+                   Bin("+", Mem(Fld("ga"), "again"), Mem(Fld("ga"), "val")), Idx(VecF, <<Arg("", Bin("-", Mem(Fld("ga"), "val"), Lit(10)))>>) }
+
+Exprs == Plain \cup Fixed \cup Switches \cup TwoArrays \cup Generics
 EnvOf(val) == [n \in DOMAIN Base \cup DOMAIN val |-> IF n \in DOMAIN val THEN val[n] ELSE Base[n]]
 ValSeq == SetToSeq(Valuations)
 Cases == { [e |-> e, values |-> [j \in 1..Len(ValSeq) |-> Eval(e, EnvOf(ValSeq[j]))]] : e \in Exprs }
